@@ -30,8 +30,8 @@ int main(int argc, char** argv)
         static std::vector<std::string> nameStore;
         static std::vector<const char*> names;
         if (names.empty()) {
-            const char* kinds[] = {"trip", "poll", "movetrip", "publish", "consume", "badindex"};
-            for (int c = 0; c < 60; ++c) nameStore.push_back(std::string(kinds[c / 10]) + std::to_string(c % 10));
+            const char* kinds[] = {"trip", "poll", "movetrip", "publish", "consume", "badindex", "massign"};
+            for (int c = 0; c < 70; ++c) nameStore.push_back(std::string(kinds[c / 10]) + std::to_string(c % 10));
             for (auto& s : nameStore) names.push_back(s.c_str());
         }
         for (auto& menus : vrt::parse_prog(x.rt.cfg.prog)) {
@@ -65,6 +65,15 @@ int main(int argc, char** argv)
                     } else if (kind == 4) {
                         r = mkD(L).isTripped();
                         if (r) vrt::step_ev("pr", "data", L, 1);
+                    } else if (kind == 6) {
+                        TripWireTrigger* a = mkT(L);
+                        TripWireTrigger* b = mkT(L == 1 ? 2 : 1);  // the assignment target is attached to the other explicit line
+                        *b = std::move(*a);  // b takes over line L; its previous line is dropped without being tripped
+                        delete a;            // the moved-from trigger: must be safe and must not trip anything
+                        vrt::log_ev("mdestroy", "line", L);
+                        vrt::log_ev("tb", "line", L);
+                        delete b;
+                        vrt::log_ev("te", "line", L);
                     } else {
                         try {
                             TripWireDetector d(7u);
